@@ -113,6 +113,16 @@ CLAIMED = {
             "definition with own Keccak and boundaries from the library's own parsers.",
             "model Model/TxId.v hand-written after fix a7d4e8d; uses C01 (exactness) to turn 'serialisation of the parsed part' into 'slice of b'; Keccak instance is C17's",
             "Coq proof + model/implementation correspondence", "4 C05"),
+    "C19": ("proof, partial (serde data model is modelled). Coq theorems (Props/C19.v, 37) about Model/Json.v (JSON value type, serde_json's compact "
+            "printer, one writer and one reader per type after serde's derive conventions): of_json_T(to_json_T x) = Some x for hash, key, Key64, "
+            "index, header, txin, target, txout, prefix, signature, ecdh, rangesig, mgsig, clsag, bulletproof(+), RctSigBase, RctSigPrunable, "
+            "RctSig, transaction, block; addresses with valid keys (by C12): JSON is the C12 text, a string is accepted iff from_str accepts it; "
+            "amounts: as_pico for every u64/i64, as_xmr for |a| <= 2^63-1 (by C15), plain, opt and slice/vec; beyond the limit the string is written "
+            "but refused. Correspondence: serde_json::to_string equals the model's printed text byte for byte and python's independent construction; "
+            "from_str(to_string x) = x; re-ordered / extended / mutated JSON accepted or refused identically by serde and the model.",
+            "PARTIAL: serde, serde_derive, serde_json, serde-big-array and the serde impls of fixed-hash / curve25519-dalek are modelled, not verified; "
+            "JSON text parsing is not modelled (python's json module reads the text); ExtraField/SubField/PublicKey derives not covered",
+            "Coq proof over a modelled serde data model (partial) + correspondence", "4 C19"),
 }
 NOT_YET = {}
 ALL = ["C%02d" % i for i in range(1, 21)]
